@@ -6,11 +6,14 @@ import (
 	"testing"
 
 	"perun.network/go-perun/channel"
+	plog "perun.network/go-perun/log"
 	"verif/engine/report"
 	"verif/engine/schedrun"
 	"verif/engine/vsched"
 	"verif/harness/fx"
 )
+
+func init() { plog.Set(nil) } // the clients log every refused message at error level
 
 func fxEnc(s *channel.State) string { return fx.Enc(s) }
 
